@@ -508,6 +508,13 @@ func (app *App) stateManager() appState {
 				return stateManager
 			}
 			err = app.performSwitchover(clusterState, activeNodes, switchover, master)
+			// the attempt may have lost DCS on its way: DCS requests are retried across a session
+			// re-establishment, so a report issued now could land after another manager has already
+			// finished this very request and bring it back to life
+			if !app.AcquireLock(pathManagerLock) {
+				app.logger.Error().Msg("manager lock lost during switchover, leaving its outcome to the new manager")
+				return stateCandidate
+			}
 			if errors.Is(app.GetCurrentSwitchover(new(Switchover)), dcs.ErrNotFound) {
 				app.logger.Error().Msgf("switchover was aborted")
 			} else {
